@@ -26,6 +26,7 @@ type Obligation struct {
 	Goal   *Term
 	Tags   string   // build tags of the SSA this came from
 	Uses   []string // local axioms enabled for this obligation
+	NBase  int      // number of hypotheses before axiom/extensionality instances were appended (0: unknown)
 	Smoke  bool     // vacuity query: goal is "false" and the expected answer is NOT unsat
 	Result *Result
 }
@@ -369,6 +370,36 @@ func discharge(ob *Obligation, tier string, timeoutS int) {
 	res := &Result{Hash: hashOf(), File: base + ".z3-new.smt2"}
 	ob.Result = res
 
+	// stage 0: the ground core only (no quantified hypotheses, no axiom instances). Fewer hypotheses is
+	// always sound, and many duties (lengths, bounds, header fields) are decided here in milliseconds
+	// even when the full hypothesis set sends the solver into quantifier instantiation.
+	{
+		var ground []*Term
+		n := len(ob.Hyps)
+		if ob.NBase > 0 && ob.NBase < n {
+			n = ob.NBase
+		}
+		for _, h := range ob.Hyps[:n] {
+			if !isQuantified(h) {
+				ground = append(ground, h)
+			}
+		}
+		if len(ground) < len(ob.Hyps) {
+			txt := smtFile(ground, ob.Goal, "", false, "")
+			f := base + ".ground.smt2"
+			_ = os.WriteFile(f, []byte(txt), 0o644)
+			st, _, secs := runSolverMs(solvers[0], f, 1500)
+			if st == "unsat" {
+				res.Status, res.Solver, res.Seconds, res.Detail = "unsat", "z3-new", secs, "ground-core"
+				stats.mu.Lock()
+				stats.wins["z3-new"]++
+				stats.calls["z3-new"]++
+				stats.seconds["z3-new"] += secs
+				stats.mu.Unlock()
+				return
+			}
+		}
+	}
 	if tier == "quick" {
 		// stage 1: z3-new alone with a short budget
 		f := write(solvers[0])
